@@ -135,3 +135,16 @@ Definition semi_run_rnd (c : semicfg) (rnd : Z -> Z) (draw : oracle) (rank : nat
 
 Definition semi_object (c : semicfg) (rnd : Z -> Z) (draw : oracle) (rank : nat) (ops : list op) : list run :=
   run_ops se_set_epoch (fun c' => semi_run_rnd c' rnd draw rank) c ops.
+
+(* ------------------------------------------------------------------ *)
+(* SemiSampler(dataset, ..., rank=rank, world_size=world) constructed   *)
+(* while torch.distributed is in state g (C12.Model.pgroup):            *)
+(*   self.rank = get_rank() if rank is None else rank                   *)
+(*   self.world_size = get_world_size() if world_size is None else ...  *)
+(* ------------------------------------------------------------------ *)
+Definition se_set_world (c : semicfg) (W : nat) : semicfg :=
+  {| se_classes := se_classes c; se_L := se_L c; se_U := se_U c; se_mode := se_mode c; se_seed := se_seed c;
+     se_epoch := se_epoch c; se_W := W |}.
+
+Definition semi_built (c : semicfg) (rank world : option nat) (g : pgroup) (rnd : Z -> Z) (draw : oracle) : run :=
+  let '(r, W) := resolve_rank_world rank world g in semi_run_rnd (se_set_world c W) rnd draw r.
